@@ -370,6 +370,39 @@ class Evaluator:
                     stack.append([d[3] for d in p.decisions[:i]] + [alt])
         return done
 
+    def explore_closure(self, clo, args, max_paths=2000):
+        """Decision table of applying a closure value (captured environment as recorded when it was created) to `args`."""
+        done = []
+        stack = [[]]
+        while stack:
+            prefix = stack.pop()
+            p = Path(prefix)
+            self.path = p
+            self.fresh = 1000
+            self.stack_fns = ["<closure>"]
+            infeasible = False
+            try:
+                c2 = Clo(clo.node, dict(clo.env))
+                p.ret = self.apply(c2, list(args), 0)
+            except Infeasible:
+                infeasible = True
+            except Panic as e:
+                p.ret = V("Panic", (str(e),))
+            except _Return as r:
+                p.ret = r.v
+            except Abort as e:
+                p.complete = False
+                p.note = str(e)
+            if not infeasible:
+                done.append(p)
+            if len(done) > max_paths:
+                raise TooManyPaths("closure: more than %d paths" % max_paths)
+            for i in range(len(prefix), len(p.decisions)):
+                _, _, n, k = p.decisions[i]
+                for alt in range(k + 1, n):
+                    stack.append([d[3] for d in p.decisions[:i]] + [alt])
+        return done
+
     def call_body(self, h, fn, args, top=False, depth=0):
         env = {}
         params = h.get("params", [])
@@ -730,10 +763,17 @@ class Evaluator:
     def const_value(self, path):
         b = self.F.bodies.get(path)
         if b and b.get("hir"):
+            outside = self.path is None
+            if outside:            # asked for outside an exploration: evaluate on a throw-away path
+                self.path = Path([])
+                self.stack_fns = getattr(self, "stack_fns", None) or ["<const>"]
             try:
                 return self.ev(H.root(b["hir"]), {}, 0)
             except (Abort, _Return):
                 pass
+            finally:
+                if outside:
+                    self.path = None
         return Sym(("def", path))
 
     # ------------------------------------------------------------------ expressions
@@ -847,7 +887,12 @@ class Evaluator:
         return [self.ev(x, env, depth) for x in n.get("es", [])]
 
     def ev_repeat(self, n, env, depth):
-        return Sym(("repeat", term(self.ev(n["e"], env, depth))))
+        v = self.ev(n["e"], env, depth)
+        m = re.search(r";\s*(\d+)(?:_?usize)?\]$", n.get("ty", ""))
+        if m and int(m.group(1)) <= 64:
+            # `[v; N]` with a literal N: N copies (closures are Copy values: each copy shares the captured environment)
+            return [v] * int(m.group(1))
+        return Sym(("repeat", term(v)))
 
     def ev_field(self, n, env, depth):
         v = self.get_field(self.ev(n["base"], env, depth), n["name"])
